@@ -2,7 +2,7 @@ import RedunModel.Proto
 import RedunModel.Model.ValueHash
 open RedunModel RedunModel.ValueHash
 
-/- value ::= N | T | F | i<int> | s<hex utf-8> | b<hex> | (L v*) | (U v*) | (D (k v)*) | (S v*) | (FS v*) | (O <cls> v*)
+/- value ::= N | T | F | i<int> | f<16 hex digits: binary64 bits> | s<hex utf-8> | b<hex> | (L v*) | (U v*) | (D (k v)*) | (S v*) | (FS v*) | (O <cls> v*)
    (sets / frozensets list their elements in the iteration order observed in the process that hashed the value)
    request:  record v -> same reply format, for the hash `record_value` stores (`get_hash(data=serialize())`)
    request:  hash v   ->   V:<layout>          pre-image under tag "Value"
@@ -22,6 +22,8 @@ mutual
         match a.toList with
         | 's' :: r => (stringOfHex (String.ofList r)).map (fun s => V.str (s.toList.map Char.toNat))
         | 'b' :: r => (bytesOfHex (String.ofList r)).map (fun b => V.bytes (b.map UInt8.toNat))
+        | 'f' :: r => (bytesOfHex (String.ofList r)).bind (fun b =>
+            if b.length = 8 then some (V.float (b.foldl (fun n x => n * 256 + x.toNat) 0)) else none)
         | _ => none
     | .list (.atom "L" :: items) => (toVs items).map .list
     | .list (.atom "U" :: items) => (toVs items).map .tuple
@@ -59,6 +61,7 @@ partial def render : V → String
   | .none => "N"
   | .bool b => if b then "T" else "F"
   | .int z => "i" ++ toString z
+  | .float b => "f" ++ toString b
   | .str s => "s" ++ nats s
   | .bytes s => "b" ++ nats s
   | .list xs => "(" ++ " ".intercalate ("L" :: xs.map render) ++ ")"
